@@ -7,7 +7,7 @@ props = [json.loads(l) for l in open(os.path.join(V, "properties.jsonl"))]
 # id -> (technique, level text, level note)
 CLAIMED = {
  "C15": ("stateless bounded-exhaustive exploration of delivery/lock histories on the real BlockChain vs brute-force max-weight reference",
-         "Every labelled acyclic parent function on N headers (N<=4 quick, <=6 thorough) x weight assignments x every delivery permutation x every batching, "
+         "Every labelled acyclic parent function on N headers (N<=4 quick, <=5 thorough) x weight assignments x every delivery permutation x every batching, "
          "with <=2 lock_to_index and <=1 re-delivery deviations, is executed from scratch on the real BlockChain; after every delivery the reported chain, "
          "both lookups, tuple links, returned ops and callback ops are compared with a brute-force maximum-weight reference. Exhaustive within the stated bound.",
          "Trusted: the 20-line reference in vf/ref/chain.py; histories needing more headers than the bound, or weights outside the alphabets, are not covered."),
